@@ -975,6 +975,13 @@ bool parse(const std::string& format, const std::string& input,
     subseconds = detail::femtoseconds::zero();
   }
 
+  // strptime() may let a seconds value beyond the leap second through (for
+  // example 61 via %T).  Such a value is not normalized.
+  if (tm.tm_sec > 59) {
+    if (err != nullptr) *err = "Out-of-range field";
+    return false;
+  }
+
   if (!saw_year) {
     year = year_t{tm.tm_year};
     if (year > kyearmax - 1900) {
